@@ -250,7 +250,13 @@ fn handle_posting_value(
                                         let msg = "Unit price '@' is negative";
                                         return Err(msg.into());
                                     }
-                                    (post_amount * unit_price, false)
+                                    match post_amount.checked_mul(unit_price) {
+                                        Some(txn_amount) => (txn_amount, false),
+                                        None => {
+                                            let msg = "Value of posting (amount * unit price) is out of range";
+                                            return Err(msg.into());
+                                        }
+                                    }
                                 }
                             }
                         }
